@@ -122,6 +122,10 @@ def oracle(case, stats):
         if not ok:
             stats.count("skipped:ids-not-shared")
             return
+    if mode == "edited-then-again" and any(o[k + "s"] and not o[k + "_coeffs"] for k in M.KINDS):
+        # terms without coefficient tables carry opaque type ids; how a second merge numbers them is not part of the property
+        stats.count("skipped:untyped-terms-in-edited-mode")
+        return
     try:
         a = M.build(s)
         b = M.build(o)
@@ -149,6 +153,18 @@ def oracle(case, stats):
                 a.extend(b, offsets=offs, structure_index_map=dict(mp))
                 b2 = M.build(shifted_copy(o))
                 a.extend(b2, offsets=offs)
+            elif mode == "edited-then-again":
+                # default type merging twice with the SAME fragment object, whose tables the caller edits in between
+                a.extend(b, structure_index_map=dict(mp))
+                o2 = edited_copy(o)
+                b.atom_type_labels = list(o2["type_labels"])
+                b.pair_coeffs = list(o2["pair_coeffs"])
+                for k in M.KINDS:
+                    setattr(b, M.COEFF_ATTR[k], list(o2[k + "_coeffs"]))
+                b.positions = np.array(o2["pos"], float).reshape(-1, 3)
+                b.charges = np.array(o2["charges"], float)
+                snap_b = mf.snapshot(b)
+                a.extend(b)
             elif mode == "repeated-same-map":
                 # the caller keeps one map object and passes it to both extensions
                 offs = a.extend_types(b)
@@ -175,6 +191,10 @@ def oracle(case, stats):
         if mode == "repeated-same-map":
             mo2 = tag_untyped(M.model_from_spec(shifted_copy(o)), "other")
             want = M.m_extend(want, mo2, mp)
+        if mode == "edited-then-again":
+            # terms without coefficient tables carry opaque ids: the second merge may number them afresh
+            mo2 = tag_untyped(M.model_from_spec(edited_copy(o)), "other-again")
+            want = M.m_extend(want, mo2, {})
     kind_labels = {k: (s["extra_%s_labels" % k], o["extra_%s_labels" % k]) for k in M.KINDS}
     want = M.merge_extra(want, s["extra_atom_labels"], o["extra_atom_labels"], len(ms["atoms"]), list(mp.values()), kind_labels)
     got = M.resolve(a, what)
@@ -189,12 +209,23 @@ def oracle(case, stats):
     stats.count("map-size:%d" % len(mp))
     stats.count("self-atoms:%s" % ("0" if not ms["atoms"] else "1+"))
     nterms_o = sum(len(mo["terms"][k]) for k in M.KINDS)
-    lost = sum(len(ms["terms"][k]) for k in M.KINDS) + nterms_o * (2 if mode.startswith("repeated") else 1) - sum(len(want["terms"][k]) for k in M.KINDS)
+    lost = sum(len(ms["terms"][k]) for k in M.KINDS) + nterms_o * (2 if mode.startswith("repeated") or mode == "edited-then-again" else 1) - sum(len(want["terms"][k]) for k in M.KINDS)
     stats.count("superseded-terms:%s" % (lost > 0))
     if nterms_o >= 1 and (mp or any(ms["terms"][k] and mo["terms"][k] for k in M.KINDS)):
         stats.mark_nontrivial([case.get("shapes"), case["map"], mode, s["charges"], o["charges"], [len(s[k + "s"]) for k in M.KINDS],
                                [len(o[k + "s"]) for k in M.KINDS], s.get("_delete_all", False), s["type_labels"], o["type_labels"],
                                [s[k + "s"] for k in M.KINDS], [o[k + "s"] for k in M.KINDS]])
+
+
+def edited_copy(o):
+    """the fragment after its owner changed its type tables: other labels, other coefficient text (and other positions /
+    charge tags, so that the second batch of atoms is distinguishable)"""
+    o2 = shifted_copy(o)
+    o2["type_labels"] = [l + "_e" for l in o["type_labels"]]
+    o2["pair_coeffs"] = [c + " e2" for c in o["pair_coeffs"]]
+    for k in M.KINDS:
+        o2[k + "_coeffs"] = [c.split("#")[0].rstrip() + " e2" for c in o[k + "_coeffs"]]
+    return o2
 
 
 def shifted_copy(o):
@@ -261,7 +292,7 @@ def random_case(draw):
                             s[kind + "_types"].append(s[kind + "_types"][rep % len(s[kind + "_types"])])
                             if s["extra_%s_labels" % kind]:
                                 s["extra_%s_fields" % kind].append(list(s["extra_%s_fields" % kind][0]))
-    return {"self": s, "other": o, "map": mp, "mode": draw(st.sampled_from(["default", "explicit-offsets", "repeated", "repeated-same-map"]))}
+    return {"self": s, "other": o, "map": mp, "mode": draw(st.sampled_from(["default", "explicit-offsets", "repeated", "repeated-same-map", "edited-then-again"]))}
 
 
 def random_oracle(case, stats):
